@@ -1,6 +1,7 @@
 """C15 Accounting."""
 import core
 import prims
+import blobs
 from core import op_local, op_const
 from engine import Rule
 
@@ -202,7 +203,7 @@ def a4(ctx, rid):
         if not f.file.startswith('src/storage/'):
             continue
         for c in f.calls:
-            if OPEN_NEW not in prog.resolve(c) or c.name == 'poll':
+            if not blobs.is_fresh_call(prog, c) or c.name == 'poll':
                 continue
             n += 1
             key = 'created-blob-installed|%s' % prog.fns[f.id].root
